@@ -377,13 +377,18 @@ def custom_files(spec):
                 extra["Peers"] = "0,1,2"        # as the runtime writes it on the "Set BcList" part (a string of its own)
             # idless: the operation word carries no request id, the sequence number is the first number of the name,
             # which then sits in the sync tag
-            nm = (f"SenRdmaSend{kind} [sync=g_{seq}_s{f['rank']}_r{peer}_{j}] DmaO" if f.get("idless") else
-                  f"SenRdmaSend_{seq}{kind} [sync=g{seq}_s{f['rank']}_r{peer}_{j}] DmaO")
+            # the operation word: sends and (both spellings of) receives are numbered sequences alike
+            op = ["SenRdmaSend", "SenRdmaRecv", "SenRdmaReceive"][{1000: 0, 1030: 1, 2030: 2, 7: 0, 31: 1}.get(seq, seq % 3)]
+            nm = (f"{op}{kind} [sync=g_{seq}_s{f['rank']}_r{peer}_{j}] DmaO" if f.get("idless") else
+                  f"{op}_{seq}{kind} [sync=g{seq}_s{f['rank']}_r{peer}_{j}] DmaO")
             rk.dev_event(nm, TID_SEND, [float(t), float(t), float(t), float(t), float(t + dur)], extra)
         # plain device slices that belong to no sequence (transfers and kernels), also between the parts
         for j, (t, dur) in enumerate(f.get("plain", [])):
             nm = [f"result_{j} DmaO", f"weights_{j} DmaI", f"mm_{j} Cmpt Exec"][j % 3]
-            rk.dev_event(nm, TID_SEND + 20 + j % 3, [float(t), float(t), float(t), float(t), float(t + dur)])
+            # every fourth one on the lane of the sequence parts themselves (it may partially overlap a part there: what the
+            # overlap resolution does with it must not depend on the option)
+            rk.dev_event(nm, TID_SEND if j % 4 == 3 or f.get("same_lane") else TID_SEND + 20 + j % 3,
+                         [float(t), float(t), float(t), float(t), float(t + dur)])
         rk.host_event("AIU Roundtrip", 77, 0.0, 900.0)
         # dirs: one directory per job, the rank's file name is the same in each of them
         fn = f"job{k}/rank_{f['rank']}.json" if spec.get("dirs") else f"job{k}_rank_{f['rank']}.json"
@@ -411,7 +416,8 @@ def e2e_eval(case, verbose=False):
     from lib.core import REPO as _REPO
     nslices = sum(1 for evs in files.values() for e in evs if e["ph"] == "B")
     extra = [[], [], ["-c", str(_REPO / "tests/test_data/sample_comp_log_ideal.txt")], ["--keep_prep"], ["-t"],
-             ["--drop_globals"], ["-c", str(_REPO / "tests/test_data/sample_comp_log_ideal.txt"), "-t"]][(nslices + len(files)) % 7]
+             ["--drop_globals"], ["-c", str(_REPO / "tests/test_data/sample_comp_log_ideal.txt"), "-t"], ["-R"],
+             ["-k"], ["--disable_tb"]][case.get("xi", nslices + len(files)) % 10]
     with contextlib.redirect_stdout(io.StringIO()):
         r0 = stage.e2e(["--freq", "512", *extra], files)
         r1 = stage.e2e(["--freq", "512", "--comm_summarize_seq", *extra], files)
@@ -479,7 +485,8 @@ def gen_e2e(ctx: Ctx):
         {"rank": 0, "sends": [[1030, 20, 5, 1], [1030, 40, 20, 2], [7, 100, 5, 1]], "plain": [[60.5, 5]], "idless": False},
         {"rank": 0, "sends": [[1030, 220, 5, 1], [1030, 260, 20, 3], [7, 300, 5, 2], [7, 330, 1, 0]], "plain": [], "idless": False},
         {"rank": 1, "sends": [[1030, 25, 5, 0]], "plain": [[80.5, 1]], "idless": True}]}}
-    for _ in range(ctx.n(14, 140)):
+    xi = [0]        # the switch set of the paired runs: round robin over the custom cases (kept in the case for replay)
+    for _ in range(ctx.n(24, 240)):
         nfiles = rng.choice([1, 2, 3, 4])
         ranks = [rng.choice([0, 1, 2]) for _ in range(nfiles)]
         used = {}
@@ -498,8 +505,9 @@ def gen_e2e(ctx: Ctx):
                 t = rng.choice([x for x in range(10, 600) if x not in times])
                 times.add(t)
                 plain.append([t + 0.5, rng.choice([1, 5, 20])])
-            fl.append({"rank": r, "sends": sends, "plain": plain, "idless": rng.random() < 0.25})
-        yield {"kind": "e2e", "gen": "custom", "spec": {"files": fl, "dirs": rng.random() < 0.4}}
+            fl.append({"rank": r, "sends": sends, "plain": plain, "idless": rng.random() < 0.25, "same_lane": rng.random() < 0.3})
+        xi[0] += 1
+        yield {"kind": "e2e", "gen": "custom", "spec": {"files": fl, "dirs": rng.random() < 0.4}, "xi": xi[0]}
 
 
 # ---------------------------------------------------------------------------------------------
@@ -564,7 +572,7 @@ def shrink(ctx: Ctx, case, classifier):
 
         def bad(sp):
             try:
-                v, _ = e2e_eval({"kind": "e2e", "gen": "custom", "spec": sp})
+                v, _ = e2e_eval(dict(case, spec=sp))
             except Exception:
                 return False
             return v is not None and v[0] == classifier
@@ -580,7 +588,7 @@ def shrink(ctx: Ctx, case, classifier):
                         break
                 if changed:
                     break
-        return {"kind": "e2e", "gen": "custom", "spec": spec}
+        return dict(case, spec=spec)
 
     def bad(evs):
         cc = {"events": evs}
